@@ -235,7 +235,7 @@ PROPS = {
                 "non-overlapping, each equal to one lexical token (UTF-16 length, comment without its line terminator), type/modifier inside "
                 "the legend), SPECSEM (valid programs: the exact expected stream from lexical class and Scope binding kind, declaration "
                 "modifier exactly on declaring occurrences). " + TEXT_RULE,
-        "unproved_parts": ["semantic_tokens_decode / semantic_tokens_count are theorems for every document (the delta stream decodes to the start positions of the classified tokens, nothing shifted, dropped or duplicated); non-overlap and UTF-16 length of each token are judged on every run (JUDGESEM), the classification of identifiers is compared with the Scope specification (SPECSEM), neither is a theorem"],
+        "unproved_parts": ["semantic_tokens_decode / semantic_tokens_count ARE theorems for every document (the delta stream decodes to the start positions of the classified tokens, nothing shifted, dropped or duplicated); for every valid program in any layout (tokens lexed from the text, tree derived by the grammar specification) semantic_tokens_total (the handler answers: no slice out of range, no negative delta), classified_in_order (the encoded tokens are a sub-sequence of the lexical tokens: each coincides with one lexical token, none twice, in document order) and semantic_tokens_increasing (decoded positions strictly increasing in document order) ARE theorems; NOT theorems: strict increase for BROKEN documents and the UTF-16 length of each token (judged on every run, JUDGESEM), the classification of identifiers (compared with the Scope specification, SPECSEM)"],
     },
     "C16": {
         "rule": "valid programs, uncompressed layout; positions classified by construction: statement starts in bodies/blocks and before a "
